@@ -59,8 +59,10 @@ def _worker_init(prop_id, quiet):
         sys.stdout = open(os.devnull, "w")
     _W["prop"] = load_prop(prop_id)
     if getattr(_W["prop"], "needs_zygote", False) or getattr(_W["prop"], "isolate_runs", False):
+        from . import seams
         from .seams import get_zygote
 
+        seams.ZYGOTE_WARMUP = list(getattr(_W["prop"], "zygote_warmup", []))
         get_zygote()  # fork the pristine twin server now, before this worker executes its first run
 
 
